@@ -500,4 +500,25 @@ def _describe_named(body, op, depth=0):
         return "%s(%s)" % (r["op"], _describe_named(body, r["a"], depth + 1))
     if kk == "discr":
         return "discr(%s)" % _describe_named(body, r["place"], depth + 1)
+    if kk == "agg":
+        return "%s{%s}" % (r.get("vname") or r.get("ak"), ", ".join(_describe_named(body, o, depth + 1) for o in r["ops"]))
     return kk
+
+
+def describe_rvalue(body, r, names=True):
+    """Descriptor of an rvalue (not bound to a local)."""
+    k = r["k"]
+    d = (lambda o: describe(body, o, names=names))
+    if k in ("use", "cast"):
+        return d(r["op"])
+    if k in ("ref", "rawptr"):
+        return d(r["place"])
+    if k == "binop":
+        return "%s(%s, %s)" % (r["op"].replace("WithOverflow", ""), d(r["l"]), d(r["r"]))
+    if k == "unop":
+        return "%s(%s)" % (r["op"], d(r["a"]))
+    if k == "discr":
+        return "discr(%s)" % d(r["place"])
+    if k == "agg":
+        return "%s{%s}" % (r.get("vname") or r.get("ak"), ", ".join(d(o) for o in r["ops"]))
+    return k
